@@ -14,7 +14,7 @@ import (
 func c03Others(c *Collector, r *Rng, keys []realKey, thorough bool) {
 	n := 6
 	if thorough {
-		n = 300
+		n = 40
 	}
 	// ---- COSE_Sign ----
 	for _, k := range keys {
